@@ -148,4 +148,20 @@ def decompress (e : BitmapEvent) : Outcome (List UInt8) :=
     else rgb565torgb32 (raw16 e.data w h) w h
   else .err "NotImplemented"
 
+/-- The buffers `BitmapEvent::decompress` asks the allocator for (sizes in bytes, in
+    program order): `vec![0u8; w*h*4]` at 32 bpp (before the data is looked at);
+    `vec![0u16; w*h*2]` for the interleaved decoder and, when it succeeds, `rgb565torgb32`'s
+    `vec![0u8; w*h*4]`; `vec![0u16; w*h]` + the widened copy for raw 16 bpp, after the size
+    test.  Error values (a short message string) are not buffers and are left out. -/
+def allocTrace (e : BitmapEvent) : List Nat :=
+  let px := e.width * e.height
+  if e.bpp = 32 then [px * 4]
+  else if e.bpp = 16 then
+    if e.compress then
+      match Rle16.decompress e.data e.width e.height (Array.replicate (px * 2) 0) with
+      | .ok _ => [px * 2 * 2, px * 4]
+      | _ => [px * 2 * 2]
+    else if e.data.size < px * 2 then [] else [px * 2, px * 4]
+  else []
+
 end Rdp.Codec
